@@ -128,6 +128,40 @@ func main() {
 		})
 		fmt.Fprintf(&b, "/-- `shouldEscape` also escapes '%%' itself (`|| b == '%%'`) -/\n")
 		fmt.Fprintf(&b, "def escapesPercent : Bool := %v\n", escPercent)
+		// every conjunct `'X' <= b && b <= 'Y'` of the disjunction: byte ranges that are escaped although legal
+		var ranges []string
+		charOf := func(e ast.Expr) (int, bool) {
+			l, ok := e.(*ast.BasicLit)
+			if !ok || l.Kind != token.CHAR {
+				return 0, false
+			}
+			r, _, _, err := strconv.UnquoteChar(l.Value[1:len(l.Value)-1], '\'')
+			if err != nil {
+				return 0, false
+			}
+			return int(r), true
+		}
+		ast.Inspect(se, func(n ast.Node) bool {
+			be, ok := n.(*ast.BinaryExpr)
+			if !ok || be.Op != token.LAND {
+				return true
+			}
+			l, ok1 := be.X.(*ast.BinaryExpr)
+			r, ok2 := be.Y.(*ast.BinaryExpr)
+			if !ok1 || !ok2 || l.Op != token.LEQ || r.Op != token.LEQ {
+				return true
+			}
+			lo, okl := charOf(l.X)
+			hi, okh := charOf(r.Y)
+			_, idl := l.Y.(*ast.Ident)
+			_, idr := r.X.(*ast.Ident)
+			if okl && okh && idl && idr {
+				ranges = append(ranges, fmt.Sprintf("(%d, %d)", lo, hi))
+			}
+			return true
+		})
+		fmt.Fprintf(&b, "/-- `shouldEscape` also escapes these byte ranges (`|| ('X' <= b && b <= 'Y')`): letters a case-insensitive\n    header name cannot carry -/\n")
+		fmt.Fprintf(&b, "def escapeRanges : List (Nat × Nat) := [%s]\n", strings.Join(ranges, ", "))
 
 		// --- order of the filters in buildProxyHandlerChainFunc (first = innermost = applied last to a request)
 		pf := g.ParseFile("cmd/kube-gateway/app/proxy.go")
